@@ -320,7 +320,7 @@ func biasedAst(rng *rand.Rand, cfg gen.Config) *gen.Node {
 	cfg.MaxDepth = 1 + rng.Intn(2)
 	tail := gen.Random(rng, cfg)
 	var head *gen.Node
-	switch rng.Intn(15) {
+	switch rng.Intn(17) {
 	case 0: // leading string
 		head = lit(w())
 	case 1: // leading strings
@@ -438,6 +438,24 @@ func biasedAst(rng *rand.Rand, cfg gen.Config) *gen.Node {
 		if rng.Intn(4) == 0 {
 			head = &gen.Node{Kind: gen.KSeq, Subs: []*gen.Node{{Kind: gen.KQuant, Lo: rng.Intn(2), Hi: -1, Subs: []*gen.Node{{Kind: gen.KShort, Short: 'w'}}}, head}}
 		}
+	case 12, 13: // a literal (or a one-or-more loop of one character) right before a trailing anchor: the anchored
+		// prefix search, and right-to-left the place where $ and \Z have two legal positions
+		var pre *gen.Node
+		if rng.Intn(3) == 0 {
+			pre = &gen.Node{Kind: gen.KQuant, Lo: 1, Hi: -1, Subs: []*gen.Node{{Kind: gen.KLit, Ch: 'a'}}}
+		} else {
+			pre = lit(w())
+		}
+		if rng.Intn(4) == 0 {
+			pre = &gen.Node{Kind: gen.KCap, Subs: []*gen.Node{pre}}
+		}
+		root := &gen.Node{Kind: gen.KSeq, Subs: []*gen.Node{tail, pre, {Kind: gen.KAnchor, Anchor: []string{"z", "Z", "$", "$"}[rng.Intn(4)]}}}
+		if rng.Intn(2) == 0 {
+			root.Subs = root.Subs[1:]
+		}
+		gen.AssignGroups(root, cfg.Opts)
+		gen.AvoidKnownFindings(root)
+		return root
 	default: // positive lookahead in front
 		head = &gen.Node{Kind: gen.KLook, Subs: []*gen.Node{lit(w())}}
 	}
